@@ -3,12 +3,32 @@
 import json, subprocess
 
 CLAIMED = {
- "C01": ("checked reads: content file replaced by an arbitrary byte string / truncated / removed / symlinked, all checked retrieval entry points, 3 flavours",
+ "C01": ("checked reads: content file replaced by an arbitrary byte string / truncated / removed / symlinked, all checked retrieval entry points, existing destinations, 3 flavours",
          "Bounded: <= 3 data reads per file (quick 2), single-hash integrities; ideal hash."),
- "C02": ("write/read round trip for data of any length, symbolic chunk boundaries, declared size absent or equal, all algorithms, keyed and by address, 3 flavours",
+ "C02": ("write/read round trip for data of any length, symbolic chunk boundaries, declared size absent or equal, all algorithms, keyed and by address, cold cache or content address occupied by wrong bytes, 3 flavours",
          "Bounded: <= 3 chunks (quick 2); healthy filesystem (full writes)."),
- "C08": ("commit enforcement: symbolic declared size over the full usize range, seven classes of declared integrity, prior key states, 3 flavours",
+ "C03": ("content-area invariant at every kill point of every write (before each filesystem action and inside data writes after a symbolic torn prefix) and at normal return; declared size symbolic",
+         "Bounded: <= 3 chunks; no fsync/power-loss model; rename atomic."),
+ "C04": ("kill at every point of a keyed write/removal incl. torn index append of any byte length (multi-byte characters), then lookups through both APIs and continuation writes",
+         "Concrete small records (so torn lengths are decided exactly); one crash per scenario."),
+ "C05": ("all histories of <= 3 (thorough 4) operations over write/overwrite-with-metadata/remove x 2 keys, explicit symbolic timestamps, mixed sync/async entry points, foreign records in the bucket",
+         "Bounded history length and alphabet."),
+ "C06": ("index damage: truncation at a symbolic length, overwrites with symbolic byte values, inserted garbage lines; oracle from untouched records; sync and async readers",
+         "One damage event; quick tier uses representative positions per structural class, thorough every byte position; ideal hash."),
+ "C08": ("commit enforcement: symbolic declared size over the full usize range, seven classes of declared integrity, prior key states incl. same data, 3 flavours",
          "Bounded: <= 3 chunks (quick 2); well-formed integrity arguments."),
+ "C09": ("remove / remove_hash / remove_fully / clear aimed at shared, distinct and never-written keys, with filesystem frame condition and explicit symbolic timestamps",
+         "Bounded histories (3 keys + 1 absent)."),
+ "C10": ("listing vs lookup after all histories of <= 3 (thorough 4) operations, explicit symbolic timestamps, foreign records, two HashSet orders",
+         "Bounded history length; HashSet order modelled by two permutations."),
+ "C11": ("metadata round trip with symbolic u128 time, symbolic size, opaque JSON / raw metadata, hostile keys, defaults tied to the clock reads of the commit, rewrites of a key",
+         "JSON values opaque or concrete samples."),
+ "C13": ("exactly one filesystem action of each call fails (every action in turn, errno opaque until inspected, or short write + failure); truthful outcome, no damage, retry succeeds",
+         "Single fault per call; fault replay through an LD_PRELOAD shim."),
+ "C14": ("writers abandoned after creation / chunks / cancelled async write with the blocking job pending, and rejected commits: lookups unchanged, tmp/ empty, no index append",
+         "spawn_blocking timing explored in three modes."),
+ "C18": ("extraction (copy/reflink/hard_link, checked/unchecked, by key/address) on pristine, damaged and missing content, fresh and existing destinations, filesystems with and without reflink",
+         "Bounded: checked extraction <= 3 verification reads (quick 2)."),
 }
 REASON_PENDING = "check not built yet (engine under construction); will be claimed once its vacuity and replay guards pass"
 
